@@ -30,6 +30,29 @@ class OtherArray:
         self.dtype = dtype
 
 
+class UnprintableArray(np.ndarray):
+    """an ndarray whose repr()/str() raise (a deleted / donated device buffer, a handle to something that is gone): still a perfectly
+    good array as far as type, dtype and shape go"""
+
+    def __repr__(self):
+        raise RuntimeError("vf: this array cannot be printed")
+
+    __str__ = __repr__
+
+
+def variant_value(value, s):
+    """Deterministic (replayable) variants of a NumPy value, chosen from the step itself: an unprintable ndarray subclass, or -- for rank 0
+    under the array type Any -- the NumPy scalar of that dtype (it has .shape == () and .dtype)."""
+    if s.get("vk") != "np" or not isinstance(value, np.ndarray):
+        return value, None
+    pick = (sum(s["shape"]) + len(s["tokens"]) + len(s["dtype"])) % 4
+    if pick == 0:
+        return value.view(UnprintableArray), "unprintable-array"
+    if pick == 1 and s["shape"] == [] and s.get("at") == "any" and not s.get("nest"):
+        return value.dtype.type(0), "numpy-scalar-under-Any"
+    return value, None
+
+
 NON_ARRAYS = [None, 3, "str", (1, 2), [1.0], object]
 
 
